@@ -129,7 +129,7 @@ static void gen_inv(const GenCtx &ctx, Case &c, int viewpct) {
   c.setu("L.seed", g::seed()).setu("U.seed", g::seed());
   c.sets("Pi", g::lapack_perm(n, n));
   g::place(c, "A", viewpct);
-  if (r == "mzd_inv_m4ri") {
+  if (r == "mzd_inv_m4ri" || r == "mzd_invert_naive") {  // both document a preallocated result matrix
     if (g::coin(1, 2)) {
       c.sets("D.dst", "given");
       c.set("D.jkind", 2);
@@ -175,12 +175,14 @@ static Verdict exec_inv(const Case &c) {
   } else {
     oi.create_owned(identity(n));
     oi.snapshot();
-    ret = mzd_invert_naive(nullptr, oa.M, oi.M);
+    x.make_dst(od, "D", n, n);
+    ret = mzd_invert_naive(od.M, oa.M, oi.M);
     if (!ret) {
       x.v.fail("mzd_invert_naive returned NULL for an invertible matrix");
       return x.v;
     }
-    fresh.adopt(ret);
+    if (od.M && ret != od.M) x.v.fail("returned pointer differs from supplied destination");
+    if (!od.M) fresh.adopt(ret);
     x.ro(oi, "I");
   }
   Mat Binv = read_mzd(ret);
